@@ -59,7 +59,7 @@ fn value(idx: u64, rng: &mut Rng, mon: &mut Mon) {
     // signatures name the outermost wrapper and the depth, the witness holds the whole stack
     let sname = format!("{}@depth{}", layers.last().map(|l| l.name()).unwrap_or("bare"), depth);
     let kin = build(Arc::new(OPWKinematics::new(to_params(&rp))), &layers);
-    let q = joints_uniform(rng, PI);
+    let q = if rng.bool(0.2) { joints_resting(rng, PI) } else { joints_uniform(rng, PI) };
     let reach = stack_reach(&rp, &layers);
     let ftol = 1e-11 * (1.0 + reach);
     let target = ref_forward(&rp, &layers, &q);
